@@ -111,11 +111,17 @@ claim("C12",
       STATIC_NOTE + "saferith arithmetic and the CRT recombination formula are trusted. Not decided: numerical exactness on the boundary lattice, agreement with an independent big-integer implementation.",
       "DESIGN.md §4 C12")
 
-for p, why in {
-    "C01": "not built yet", "C02": "not built yet", "C03": "not built yet", "C04": "not built yet", "C05": "not built yet",
-    "C06": "not built yet", "C07": "not built yet", "C08": "not built yet", "C09": "not built yet", "C10": "not built yet",
-    "C11": "not built yet", "C12": "not built yet", "C13": "not built yet", "C14": "not built yet", "C15": "not built yet",
-    "C16": "not built yet", "C17": "not built yet", "C19": "not built yet", "C20": "not built yet",
-}.items():
-    if p not in CLAIMED:
-        na(p, why + " (check under construction in this round; see DESIGN.md §4 for the planned static rules)")
+claim("C01",
+      "dominance rule: every ResultRound(signature) is governed by a passed Verify whose key/message operands are the session's group key and message (path identity); call-site rules on Lagrange interpolation (domain = signer set, coefficient/share index pairing by SSA value identity, group key = loop sum of scaled shares or config.PublicPoint()); operand-identity rule on curve.FromHash (shift amount from the length of the converted slice) plus a who-converts rule over all ECDSA paths; BIP-340 tag/role rule and odd-Y negation-set rule on FROST-Taproot; round-graph rules RG-1/RG-2",
+      "Decides only the structural links of a run-time property: a returned signature is always one the library's verifier (structure decided under C16) accepted under the session's group key and message, so arithmetic mistakes can at worst abort; the session key and the share scaling are taken over the actual signer set with each coefficient applied to the same party's share (the non-prefix-subset risk); hash-to-scalar is one function whose truncation/shift operands are consistent, used by every signer path and the verifier (the 'error shared by signer and verifier at other digest lengths' risk); FROST-Taproot hashes (R.x, P.x, m) under the BIP-340 tag and negates the complete set of objects on odd Y; round numbering lets an honest session reach its last round. NOT decided: that shares interpolate (the Lagrange formula), MtA/OT arithmetic, equality of the signatures returned by different parties, liveness under schedules.",
+      STATIC_NOTE + "C16 for the verifier's structure; C07/C17 for delivery-order independence. Not decided: numerical validity, agreement between parties, completion for every schedule.",
+      "DESIGN.md §4 C01")
+
+claim("C02",
+      "call-site and index-pairing rules over the keygen rounds of CMP and FROST: degree argument of every dealing polynomial is the session threshold (exact value, not an expression), NewPolynomial allocation/sampling shape, receiver-side Degree() guards against the same threshold, evaluation point = destination (SSA value identity) for every sub-share sent, Feldman check at SelfID() on the sender's polynomial gating acceptance, table entry j = Sum(all polynomials)(j), secret share = sum over all PartyIDs(), one ID-to-scalar mapping at every evaluation",
+      "Decides the wiring that makes the sharing consistent for thresholds the tests never run (t < n-1): degree t polynomials on the dealing and on the checking side; party j receives f_i(j), checks it against F_i at its own identifier and refuses otherwise; everybody computes table entry j as F(j) from all commitments; the own share sums all sub-shares including the own one; all of it through party.ID.Scalar. NOT decided: that the resulting shares reconstruct numerically for every subset, identifier collisions modulo the group order, the Doerner two-party multiplicative sharing (only its proofs/commitments, under C03), agreement across delivery orders (C07).",
+      STATIC_NOTE + "Tamper rejection of the same mechanisms is C03's inventory. Not decided: numeric reconstruction, Doerner.",
+      "DESIGN.md §4 C02")
+
+# every property is claimed; nothing is listed as not applicable as a whole. What each claim does NOT decide is
+# stated in its own "decides" text and in DESIGN.md section 5.
